@@ -187,6 +187,7 @@ def main():
     run.encoded('compmech/stiffpanelbay/stiffpanelbay.py', 'StiffPanelBay.uvw_skin, uvw_stiffener')
     run.outside = ['real OpenMP scheduling', 'PanelAssembly.uvw/strain/stress plotting groups', 'orders above the bound']
     res = pmap(kprop.job, [(__name__, c) for c in cf])
+    res = kprop.explore_loci(__name__, res, run)      # second pass: the equality loci the executed code branched on
     kprop.handle(run, res, build, 'field values differ from the series/kinematics')
     return run.finish()
 
